@@ -2,15 +2,22 @@
 Protocol (one JSON document per line on stdin, one answer per line on stdout):
   {"open": path}  -> opens (and keeps) a connection to that database file, answers true
   {"dump": 1}     -> answers [[system_id, key, value_text], ...] ordered by (system_id, key)
+  {"check": 1}    -> answers the rows of PRAGMA integrity_check ([["ok"]] for an intact file)
   {"close": 1}    -> closes the connection
-Texts are transported as lists of UTF-8 byte values so that nothing is re-interpreted on the way."""
+Texts longer than 200 bytes are replaced by "<long:sha1:length>".  Texts are transported as lists of UTF-8 byte values so that nothing is re-interpreted on the way."""
+import hashlib
 import json
 import sqlite3
 import sys
 
 
 def enc(s):
-    return list(s.encode("utf-8", "surrogatepass")) if isinstance(s, str) else ["?", repr(s)]
+    if not isinstance(s, str):
+        return ["?", repr(s)]
+    b = s.encode("utf-8", "surrogatepass")
+    if len(b) > 200:     # same digest form as c15.short(): long texts are opaque to the model
+        b = b"<long:" + hashlib.sha1(b).hexdigest().encode() + b":" + str(len(b)).encode() + b">"
+    return list(b)
 
 
 def main():
@@ -26,6 +33,8 @@ def main():
             elif "dump" in cmd:
                 rows = con.execute("SELECT system_id, key, value FROM system_data ORDER BY system_id, key;").fetchall()
                 out = [[enc(a), enc(b), enc(c)] for a, b, c in rows]
+            elif "check" in cmd:
+                out = [[str(x) for x in row] for row in con.execute("PRAGMA integrity_check;").fetchall()]
             elif "close" in cmd:
                 if con is not None:
                     con.close()
